@@ -47,6 +47,7 @@ MIN_REACH = {
     "scripts_with_set_up_code_of_several_lines": {"quick": 3, "thorough": 40},
     "crops_with_the_leftover_of_a_failed_result_write": {"quick": 6, "thorough": 60},
     "batch_ids_given_as_numpy_integers": {"quick": 2, "thorough": 40},
+    "scripts_for_a_project_directory_with_a_space_and_a_local_module": {"quick": 4, "thorough": 40},
 }
 TIME_BUDGET = {"quick": 500, "thorough": 3400}
 CASE_TIMEOUT = {"quick": 400, "thorough": 900}
@@ -136,7 +137,14 @@ def missing_debris(case):
 def run_case(ctx, case):
     import xyzpy
     rng = ctx.rng("opts", case["oseed"])
-    tmp = ctx.mkdtemp("c16")
+    root = tmp = ctx.mkdtemp("c16")
+    spaced = (not case.get("cli")) and case.get("idx", 0) % 5 == 2
+    if spaced:
+        # the project lives in a directory whose name contains a space, and the function to grow is defined in a module
+        # that lies beside the crop (found because the script changes into that directory first)
+        tmp = os.path.join(root, "my project")
+        os.makedirs(tmp)
+        ctx.count("scripts_for_a_project_directory_with_a_space_and_a_local_module")
     logfile = os.path.join(tmp, "calls.log")
     cap = os.path.join(tmp, "cap")
     bindir = os.path.join(tmp, "bin")
@@ -158,7 +166,7 @@ def run_case(ctx, case):
     probe.write_ctl(ctl, jitter_us=300000 if (not case.get("cli") and case.get("mode") == "array" and case["idx"] % 3 == 0) else 2000,
                     jitter_seed=case["idx"])
     fn = probe.Probe("tuple:2", logfile=logfile, ctl=ctl, name="qprobe")
-    if case.get("cli") and case.get("user_module"):
+    if (case.get("cli") and case.get("user_module")) or spaced:
         import sys
         import importlib
         modname = "vf_usermod_%d_%d" % (case["idx"], os.getpid())
@@ -170,7 +178,8 @@ def run_case(ctx, case):
             fn = importlib.import_module(modname).qprobe
         finally:
             sys.path.remove(tmp)
-        ctx.count("cli_runs_with_function_in_a_module_beside_the_crop")
+        if case.get("cli"):
+            ctx.count("cli_runs_with_function_in_a_module_beside_the_crop")
     w = {"mode": "grid", "combos": [["a", list(range(1, n + 1))]], "names": None, "cases": None, "constants": {}}
     sig = {"api": "xyzpy-grow" if case.get("cli") else "gen_cluster_script", "scheduler": str(case.get("scheduler", "")).lower(),
            "mode": case.get("mode"), "state": case["state"], "ids_kind": case.get("ids_kind")}
@@ -227,7 +236,7 @@ def run_case(ctx, case):
             ctx.violation(case, msg, dict(sig, oracle=" ".join(msg.split(" ")[:3]), user_module=bool(case.get("user_module"))))
         ctx.observe(case, key=("cli", B, case["state"], case["num_workers"], bool(case.get("user_module"))), nontrivial=len(missing0) >= 2,
                     info={"missing_before": missing0, "calls": len(got)})
-        ctx.rmtree(tmp)
+        ctx.rmtree(root)
         return
 
     # ------------------------------------------------------------------ script generation
@@ -282,7 +291,7 @@ def run_case(ctx, case):
         os.chdir(cwd0)
         ctx.violation(case, "gen_cluster_script(%r, %r, mode=%r, %s) raised %r" % (sch, ids, case["mode"], opts, e),
                       dict(sig, oracle="generation", **exc_sig(e)))
-        ctx.rmtree(tmp)
+        ctx.rmtree(root)
         ctx.observe(case, nontrivial=False)
         return
     finally:
@@ -376,7 +385,7 @@ def run_case(ctx, case):
         ctx.violation(dict(case, options={k: (v if isinstance(v, (int, float, str, bool, type(None))) else repr(v)) for k, v in opts.items()},
                            batch_ids=ids if not isinstance(ids, tuple) else list(ids), pre_grown=pre),
                       msg, dict(sig, oracle=" ".join(msg.split(" ")[:4])))
-    ctx.rmtree(tmp)
+    ctx.rmtree(root)
     ctx.observe(case, key=(schl, case["mode"], case["state"], kind, B, sorted(opts), case["via_method"]),
                 nontrivial=len(intended) >= 2,
                 info={"intended": intended, "pre_grown": pre, "indices": indices, "options": sorted(opts)})
